@@ -3,6 +3,7 @@ package c12
 // C12 — Programs reach providers only through the allow-list; no argument vector crashes a provider call.
 
 import (
+	"context"
 	"fmt"
 	"os"
 	"path/filepath"
@@ -189,11 +190,33 @@ func newProvider(kind string) (obj interface{}, decl string, methods []string) {
 	case "http":
 		h := httpclient.NewHandler()
 		return h, "HTTP", methodNames(h)
+	case "realdb":
+		// the real table handler (ORM + query builder) on an in-memory SQLite database
+		db := database.NewSQLiteDB(&database.Config{Driver: "sqlite", Database: ":memory:", MaxOpenConns: 1, MaxIdleConns: 1})
+		if err := db.Connect(context.Background()); err != nil {
+			panic("sqlite: " + err.Error())
+		}
+		for _, q := range []string{
+			"CREATE TABLE t1 (id INTEGER PRIMARY KEY, k TEXT, tags TEXT, meta TEXT, n INTEGER)",
+			"INSERT INTO t1 (id, k, tags, n) VALUES (1, 's', 'x', 7)",
+			"CREATE TABLE zz_sentinel (id INTEGER PRIMARY KEY, v TEXT)",
+			"INSERT INTO zz_sentinel (id, v) VALUES (1, 'SENTINEL-SECRET')",
+		} {
+			if _, err := db.Exec(context.Background(), q); err != nil {
+				panic("sqlite: " + err.Error())
+			}
+		}
+		h := database.NewHandler(db)
+		return h, "Database", methodNames(h, h.Table("t1"), h.Table("t1").Where("id", "=", 1))
 	}
 	return &Probe{}, "Probe", probeMethods
 }
 
-var providerKinds = []string{"probe", "probe", "probe", "mockdb", "redis", "mongo", "http"}
+var providerKinds = []string{"probe", "probe", "probe", "mockdb", "redis", "mongo", "http", "realdb", "realdb"}
+
+// what a program may pass where a column, an operator or a value is expected
+var sqlArgLits = []string{`"id"`, `"k"`, `"n"`, `"="`, `"LIKE"`, "1", `"s"`, `"id; DROP TABLE zz_sentinel"`, `"k = 'x' OR 1=1 --"`, `"zz_sentinel"`, `"1) UNION SELECT id, v, v, v, id FROM zz_sentinel --"`,
+	`"= 1 OR 1 ="`, `"x' OR '1'='1"`, `"k\" --"`, `"*"`, `"t1.*"`, `"(SELECT v FROM zz_sentinel)"`, `{k: "v"}`, `{"k; DROP TABLE zz_sentinel": 1}`, `{id: 5, k: "new"}`, "null", "[1]", `"SELECT v FROM zz_sentinel"`, `"DELETE FROM zz_sentinel"`}
 
 func genC12(rt *rapid.T) c12Case {
 	kind := providerKinds[lang.Spread(rt, "kind", len(providerKinds))]
@@ -202,6 +225,10 @@ func genC12(rt *rapid.T) c12Case {
 	c.Spelling = spellings(rt, c.Method)
 	n := lang.Spread(rt, "arity", 5)
 	for i := 0; i < n; i++ {
+		if kind == "realdb" && lang.Spread(rt, "sqlarg", 100) < 75 {
+			c.Args = append(c.Args, sqlArgLits[lang.Spread(rt, "sarg", len(sqlArgLits))])
+			continue
+		}
 		c.Args = append(c.Args, argLits[lang.Spread(rt, "arg", len(argLits))])
 	}
 	return c
@@ -265,6 +292,11 @@ func state(kind string, obj interface{}) string {
 	case "mongo":
 		n, _ := obj.(*mongodb.MockHandler).Collection("seed").CountDocuments(map[string]interface{}{})
 		return fmt.Sprint(n)
+	case "realdb":
+		// everything outside t1: the sentinel's rows and the list of tables
+		h := obj.(*database.Handler)
+		rows, err := h.Table("zz_sentinel").Query("SELECT group_concat(id || ':' || v) AS s, (SELECT group_concat(name) FROM sqlite_master) AS tables FROM zz_sentinel")
+		return fmt.Sprint(rows, err)
 	}
 	return ""
 }
@@ -304,6 +336,9 @@ func runC12Inner(c c12Case) evid.Outcome {
 		it.SetMongoDBHandler(obj)
 	case "http":
 		it.SetHTTPHandler(obj)
+	case "realdb":
+		it.SetDatabaseHandler(obj)
+		defer obj.(*database.Handler).Close()
 	default:
 		it.SetProviderHandler("Probe", obj)
 	}
@@ -360,6 +395,15 @@ func runC12Inner(c c12Case) evid.Outcome {
 			return evid.Failf("c12.unlisted-method-changes-state", "store state changed from %q to %q\n%s", before, after, desc)
 		}
 	}
+	if c.Provider == "realdb" {
+		// whatever the method and its arguments: nothing outside t1 is read or changed
+		if after := state(c.Provider, obj); after != before {
+			return evid.Failf("c12.call-reaches-beyond-its-table", "the sentinel table / schema changed from %q to %q\n%s", before, after, desc)
+		}
+		if rerr == nil && resp != nil && strings.Contains(fmt.Sprint(resp.Body), "SENTINEL-SECRET") {
+			return evid.Failf("c12.call-reaches-beyond-its-table", "the response carries a row of another table: %v\n%s", resp.Body, desc)
+		}
+	}
 	if rerr != nil {
 		labels = append(labels, "outcome:error")
 	} else {
@@ -376,7 +420,7 @@ func TestC12Probe(t *testing.T) {
 
 // exhaustive: every method of every provider x 6 spellings x 6 forms, with one benign and one hostile argument vector
 func c12MatrixCases(yield func(c12Case) bool) {
-	for _, kind := range []string{"probe", "mockdb", "redis", "mongo", "http"} {
+	for _, kind := range []string{"probe", "mockdb", "redis", "mongo", "http", "realdb"} {
 		_, _, methods := newProvider(kind)
 		for _, m := range methods {
 			sp := []string{m, strings.ToLower(m), strings.ToUpper(m), strings.ToLower(m[:1]) + m[1:], strings.ToUpper(m[:1]) + strings.ToLower(m[1:])}
